@@ -4,13 +4,29 @@
 (* (harness/cmd/c14) makes concrete with the seed and pushes through the   *)
 (* real code.  One line <<"CASE", json>> per behaviour.                    *)
 (*                                                                         *)
-(*  Part = "names"  name.Info shapes: a sequence of entries (platform,     *)
+(* Parts is the set of families generated in one run; the family of a      *)
+(* behaviour (variable part) is chosen in Init.                            *)
+(*  part = "names"  name.Info shapes: a sequence of entries (platform,     *)
 (*                  language class, name-id class, string class)           *)
-(*  Part = "units"  every sequence of at most MaxUnits boundary UTF-16     *)
+(*  part = "units"  every sequence of at most MaxUnits boundary UTF-16     *)
 (*                  code units (the harness stores them big-endian in a    *)
 (*                  Windows record it writes itself)                       *)
-(*  Part = "post"   glyph-name lists: a mode (plain, after the 258 / 257   *)
+(*  part = "post"   glyph-name lists: a mode (plain, after the 258 / 257   *)
 (*                  standard names, nil) and a sequence of glyph classes   *)
+(*                                                                         *)
+(*  part = "equal"  name.Info values with EQUAL strings in different slots: *)
+(*                  a set eq of name ids (out of 1, 2, 4, 6, 16, 17, 21,    *)
+(*                  22) that carry the same string, all other ids distinct  *)
+(*                  strings; every pair, the two fallback triples, all,     *)
+(*                  none; on the Macintosh platform, on Windows, or on both *)
+(*                  and in two Windows languages at once (same strings)     *)
+(*  part = "scripts" ScriptLists by structure: one or two scripts, each     *)
+(*                  with its default language system absent / present and   *)
+(*                  empty (no required feature, no features) / present with *)
+(*                  features, and 0..2 named language systems, each empty   *)
+(*                  or not; laid out plainly, with the Script table shared  *)
+(*                  by both script tags, with equal LangSys tables shared,  *)
+(*                  or with the tables in the reverse order of the records  *)
 (*                                                                         *)
 (* Classes (made concrete in harness/cmd/c14/names.go, post.go):           *)
 (*  languages  m0 (Macintosh id 0), mhi (id >= 128), mr1/mr2 (random),     *)
@@ -22,12 +38,12 @@
 (*             length), same / prefix / suffix (of the previous string),   *)
 (*             xshare (same bytes on both platforms)                       *)
 (***************************************************************************)
-EXTENDS Integers, Sequences, TLC, Json
+EXTENDS Integers, Sequences, FiniteSets, TLC, Json
 
-CONSTANTS Part, MaxE, MaxUnits, MaxGlyphs
+CONSTANTS Parts, MaxE, MaxUnits, MaxGlyphs
 
-VARIABLES want, entries, units, mode, glyphs, done
-vars == <<want, entries, units, mode, glyphs, done>>
+VARIABLES part, want, entries, units, mode, glyphs, scripts, eq, done
+vars == <<part, want, entries, units, mode, glyphs, scripts, eq, done>>
 
 MacLangs == {"m0", "mhi", "mr1", "mr2"}
 WinLangs == {"w409", "wdup", "wr1", "wr2"}
@@ -41,30 +57,45 @@ BoundaryUnits == {0, 65, 55295, 55296, 56319, 56320, 57343, 57344, 65533, 65535}
 GlyphClasses == {"own", "other", "custom", "dup", "empty", "max", "one"}
 Modes == {"plain", "after258", "after257"}
 
+EqIds == {1, 2, 4, 6, 16, 17, 21, 22}
+EqSets == {{a, b} : a, b \in EqIds} \cup {EqIds, {1, 16, 21}, {2, 17, 22}}      \* {a} = nothing equal
+EqCfgs == {"mac", "win", "both"}
+
+LangSysKinds == {"empty", "feat"}
+ScriptShapes == {[def |-> d, langs |-> l] : d \in {"none", "empty", "feat"},
+                                            l \in UNION {[1..n -> LangSysKinds] : n \in 0..2}}
+                \ {[def |-> "none", langs |-> <<>>]}          \* a Script table without any language system
+Layouts == {"plain", "sharescript", "sharelangsys", "reversed"}
+
 Init ==
   /\ done = FALSE /\ entries = <<>> /\ units = <<>> /\ glyphs = <<>>
-  /\ CASE Part = "names" -> want \in 1..MaxE /\ mode = "-"
-       [] Part = "units" -> want \in 0..MaxUnits /\ mode = "-"
-       [] Part = "post"  -> want \in 0..MaxGlyphs /\ mode \in Modes \cup {"nil"} /\ (mode = "nil" => want = 0)
-                            /\ (mode \in {"after258", "after257"} => want <= 2)
+  /\ part \in Parts
+  /\ CASE part = "names" -> want \in 1..MaxE /\ mode = "-" /\ scripts = <<>> /\ eq = {}
+       [] part = "units" -> want \in 0..MaxUnits /\ mode = "-" /\ scripts = <<>> /\ eq = {}
+       [] part = "post"  -> want \in 0..MaxGlyphs /\ mode \in Modes \cup {"nil"} /\ (mode = "nil" => want = 0)
+                            /\ (mode \in {"after258", "after257"} => want <= 2) /\ scripts = <<>> /\ eq = {}
+       [] part = "equal" -> want = 0 /\ mode \in EqCfgs /\ eq \in EqSets /\ scripts = <<>>
+       [] part = "scripts" -> /\ want = 0 /\ eq = {} /\ mode \in Layouts
+                              /\ scripts \in UNION {[1..n -> ScriptShapes] : n \in 1..2}
+                              /\ (mode = "sharescript" => Len(scripts) = 2 /\ scripts[1] = scripts[2])
 
-AddEntry == Part = "names" /\ ~done /\ Len(entries) < want
+AddEntry == part = "names" /\ ~done /\ Len(entries) < want
             /\ \E e \in EntrySet : entries' = Append(entries, e)
-            /\ UNCHANGED <<want, units, mode, glyphs, done>>
-AddUnit  == Part = "units" /\ ~done /\ Len(units) < want
+            /\ UNCHANGED <<part, want, units, mode, glyphs, scripts, eq, done>>
+AddUnit  == part = "units" /\ ~done /\ Len(units) < want
             /\ \E u \in BoundaryUnits : units' = Append(units, u)
-            /\ UNCHANGED <<want, entries, mode, glyphs, done>>
-AddGlyph == Part = "post" /\ ~done /\ Len(glyphs) < want
+            /\ UNCHANGED <<part, want, entries, mode, glyphs, scripts, eq, done>>
+AddGlyph == part = "post" /\ ~done /\ Len(glyphs) < want
             /\ \E g \in GlyphClasses : glyphs' = Append(glyphs, g)
-            /\ UNCHANGED <<want, entries, units, mode, done>>
+            /\ UNCHANGED <<part, want, entries, units, mode, scripts, eq, done>>
 Finish   == /\ ~done
             /\ Len(entries) + Len(units) + Len(glyphs) = want
             /\ done' = TRUE
-            /\ UNCHANGED <<want, entries, units, mode, glyphs>>
+            /\ UNCHANGED <<part, want, entries, units, mode, glyphs, scripts, eq>>
 
 Next == AddEntry \/ AddUnit \/ AddGlyph \/ Finish
 Spec == Init /\ [][Next]_vars
 
-Emit == done => PrintT(<<"CASE", ToJson([part |-> Part, entries |-> entries, units |-> units,
-                                          mode |-> mode, glyphs |-> glyphs])>>)
+Emit == done => PrintT(<<"CASE", ToJson([part |-> part, entries |-> entries, units |-> units,
+                                          mode |-> mode, glyphs |-> glyphs, scripts |-> scripts, eq |-> eq])>>)
 =============================================================================
